@@ -284,6 +284,7 @@ def run(ctx):
         "R4.pool-length": "quiescent len() is this counter",
         "R7.removal-authority": "a second remover destroys an object while other handles exist",
         "R14.free-list-head": "a corrupted free list places a new object over a live one (or outside the slab) in the thread-safe pools too",
+        "R5.vacancy": "the vacancy tracker is told a slab is full exactly when the slab says so: a tracker that still advertises a full slab sends the next insert of a thread-safe pool one slot past the slab's allocation",
     })
     ctx.import_rules("C01", {
         "R10.checked-entry-points-check": "the checked insertion of the thread-safe pools is what makes a wrong-layout insert a panic instead of two live objects sharing memory",
